@@ -1,2 +1,171 @@
-(* C17 — lemmas. *)
+(* C17 — lemmas behind Properties.v. *)
+From Coq Require Import ZArith List Bool String Lia.
 From V.C17 Require Import Model Spec.
+Open Scope Z_scope.
+
+Lemma kind_eqb_refl : forall k, kind_eqb k k = true.
+Proof. destruct k; reflexivity. Qed.
+
+(* ---- a converted argument always has the parameter's kind *)
+Lemma to_go_typed_l : forall lib k v g, to_go lib k v = Ok g -> dyn_kind g = k.
+Proof.
+  intros lib k v g H. destruct k; cbn in H;
+    repeat match type of H with
+    | context [match as_int ?x with _ => _ end] => destruct (as_int x)
+    | context [match as_float ?l ?x with _ => _ end] => destruct (as_float l x)
+    | context [if ?c then _ else _] => destruct c
+    end; try discriminate; injection H as <-; reflexivity.
+Qed.
+
+(* ---- matching values: exact arrival, or a catchable error when unconvertible *)
+Lemma fits_int64 : forall z, (minint <=? z) && (z <=? maxint) = true -> fits KInt z = true /\ fits KInt64 z = true.
+Proof. intros z H; split; exact H. Qed.
+
+Ltac split_cmp :=
+  repeat match goal with
+  | |- context [?a <=? ?b] => destruct (Z.leb_spec a b)
+  | |- context [?a <? ?b] => destruct (Z.ltb_spec a b)
+  end.
+
+Lemma to_go_matching_l : forall lib k v, wf v = true -> matching v k = true ->
+  to_go lib k v = if unconvertible lib v k then Throw else Ok (arrive lib k v).
+Proof.
+  intros lib k v Hw Hm.
+  destruct v; destruct k; try discriminate; cbn in *; try reflexivity.
+  all: try (apply andb_true_iff in Hw; destruct Hw as [Hlo Hhi]; apply Z.leb_le in Hlo, Hhi;
+            unfold minint, maxint in *; split_cmp; cbn; try reflexivity; exfalso; lia).
+Qed.
+
+(* ---- results *)
+Lemma from_go_returnable_l : forall g, returnable g = true -> from_go g = Ok (project g).
+Proof.
+  intros g H; destruct g; try reflexivity; try discriminate.
+  cbn in *. apply andb_true_iff in H. destruct H as [_ H]. apply Z.leb_le in H.
+  destruct (signed_kind k); [reflexivity|].
+  replace (z >? maxint) with false by (symmetry; rewrite Z.gtb_ltb; apply Z.ltb_ge; exact H). reflexivity.
+Qed.
+Lemma from_go_not_crash : forall g, not_crash (from_go g) = true.
+Proof. intro g; destruct g; cbn; try reflexivity. destruct (signed_kind k); [reflexivity|]. destruct (z >? maxint); reflexivity. Qed.
+
+Lemma arrive_returnable : forall lib k v, wf v = true -> matching v k = true -> unconvertible lib v k = false ->
+  returnable (arrive lib k v) = true.
+Proof.
+  intros lib k v Hw Hm Hu. destruct v; destruct k; try discriminate; try reflexivity;
+    cbn in *; apply negb_false_iff in Hu; rewrite Hu; cbn;
+    apply andb_true_iff in Hw; destruct Hw as [_ Hw]; exact Hw.
+Qed.
+
+Lemma roundtrip_l : forall lib k v, wf v = true -> matching v k = true -> unconvertible lib v k = false ->
+  from_go (arrive lib k v) =
+  Ok (match v, k with SFloat f, KFloat32 => SFloat (f32 lib f) | _, _ => v end).
+Proof.
+  intros lib k v Hw Hm Hu.
+  rewrite (from_go_returnable_l _ (arrive_returnable lib k v Hw Hm Hu)).
+  destruct v; destruct k; try discriminate; reflexivity.
+Qed.
+
+(* ---- Call *)
+Lemma convert_args_typed : forall lib params args gs,
+  convert_args lib params args = Ok gs -> well_typed params gs = true.
+Proof.
+  intros lib params; induction params as [|k ps IH]; intros args gs H.
+  - cbn in H. injection H as <-. reflexivity.
+  - destruct args as [|a rest]; cbn in H.
+    + destruct (to_go lib k SNull) as [g| | | |] eqn:E; try discriminate.
+      destruct (convert_args lib ps []) as [gs'| | | |] eqn:E2; try discriminate.
+      injection H as <-. cbn. rewrite (to_go_typed_l lib k SNull g E), kind_eqb_refl. exact (IH [] gs' E2).
+    + destruct (to_go lib k a) as [g| | | |] eqn:E; try discriminate.
+      destruct (convert_args lib ps rest) as [gs'| | | |] eqn:E2; try discriminate.
+      injection H as <-. cbn. rewrite (to_go_typed_l lib k a g E), kind_eqb_refl. exact (IH rest gs' E2).
+Qed.
+Lemma convert_args_cases : forall lib params args,
+  (exists gs, convert_args lib params args = Ok gs) \/ convert_args lib params args = Throw.
+Proof.
+  intros lib params; induction params as [|k ps IH]; intros args.
+  - left; eexists; reflexivity.
+  - destruct args as [|a rest]; cbn.
+    + destruct (to_go lib k SNull) eqn:E; try (right; reflexivity).
+      destruct (IH []) as [[gs H]|H]; rewrite H; [left; eexists; reflexivity|right; reflexivity].
+    + destruct (to_go lib k a) eqn:E; try (right; reflexivity).
+      destruct (IH rest) as [[gs H]|H]; rewrite H; [left; eexists; reflexivity|right; reflexivity].
+Qed.
+
+Lemma call_never_crashes_l : forall lib params args ret,
+  not_crash (snd (call lib params args ret)) = true.
+Proof.
+  intros lib params args ret. unfold call.
+  destruct (convert_args_cases lib params args) as [[gs H]|H]; rewrite H.
+  - rewrite (convert_args_typed lib params args gs H). cbn.
+    destruct ret; [apply from_go_not_crash|reflexivity].
+  - reflexivity.
+Qed.
+
+Fixpoint all_ok (lib : golib) (params : list gkind) (args : list sval) : bool :=
+  match params, args with
+  | [], [] => true
+  | k :: ps, a :: r => wf a && matching a k && negb (unconvertible lib a k) && all_ok lib ps r
+  | _, _ => false
+  end.
+Fixpoint arrivals (lib : golib) (params : list gkind) (args : list sval) : list gval :=
+  match params, args with k :: ps, a :: r => arrive lib k a :: arrivals lib ps r | _, _ => [] end.
+
+Lemma convert_args_exact : forall lib params args, all_ok lib params args = true ->
+  convert_args lib params args = Ok (arrivals lib params args).
+Proof.
+  intros lib params; induction params as [|k ps IH]; intros args H.
+  - destruct args; [reflexivity|discriminate].
+  - destruct args as [|a r]; [discriminate|]. cbn in H.
+    apply andb_true_iff in H. destruct H as [H Hr].
+    apply andb_true_iff in H. destruct H as [H Hu].
+    apply andb_true_iff in H. destruct H as [Hw Hm].
+    apply negb_true_iff in Hu. cbn.
+    rewrite (to_go_matching_l lib k a Hw Hm), Hu, (IH r Hr). reflexivity.
+Qed.
+Lemma call_exact_l : forall lib params args ret, all_ok lib params args = true ->
+  call lib params args ret =
+  (arrivals lib params args, match ret with None => NoResult | Some g => from_go g end).
+Proof.
+  intros lib params args ret H. unfold call.
+  pose proof (convert_args_exact lib params args H) as E. rewrite E.
+  rewrite (convert_args_typed lib params args _ E). reflexivity.
+Qed.
+(* the first unconvertible argument makes the whole call a catchable error; the Go function is
+   not invoked *)
+Lemma call_unconvertible_l : forall lib params args ret k a ps r pre_p pre_a,
+  params = (pre_p ++ k :: ps)%list -> args = (pre_a ++ a :: r)%list ->
+  all_ok lib pre_p pre_a = true -> wf a = true -> matching a k = true -> unconvertible lib a k = true ->
+  call lib params args ret = ([], Throw).
+Proof.
+  intros lib params args ret k a ps r pre_p pre_a -> -> Hpre Hw Hm Hu. unfold call.
+  assert (E : convert_args lib (pre_p ++ k :: ps) (pre_a ++ a :: r) = Throw).
+  { revert pre_a Hpre. induction pre_p as [|k0 p0 IH]; intros pre_a Hpre.
+    - destruct pre_a; [|discriminate]. cbn. rewrite (to_go_matching_l lib k a Hw Hm), Hu. reflexivity.
+    - destruct pre_a as [|a0 r0]; [discriminate|]. cbn in Hpre.
+      apply andb_true_iff in Hpre. destruct Hpre as [H Hr].
+      apply andb_true_iff in H. destruct H as [H Hu0].
+      apply andb_true_iff in H. destruct H as [Hw0 Hm0]. apply negb_true_iff in Hu0.
+      cbn. rewrite (to_go_matching_l lib k0 a0 Hw0 Hm0), Hu0, (IH r0 Hr). reflexivity. }
+  rewrite E. reflexivity.
+Qed.
+
+(* ---- utils.ConvertFromIndex *)
+Lemma generic_typed_l : forall lib k v g, generic lib k v = Ok g -> dyn_kind g = k.
+Proof.
+  intros lib k v g H. destruct v; try discriminate.
+  - destruct b, k; cbn in H; try discriminate; injection H as <-; reflexivity.
+  - destruct k; cbn in H;
+      repeat match type of H with context [if ?c then _ else _] => destruct c end;
+      try discriminate; injection H as <-; reflexivity.
+  - destruct k; cbn in H;
+      repeat match type of H with
+      | context [match Prim2SF ?x with _ => _ end] => destruct (Prim2SF x)
+      | context [if ?c then _ else _] => destruct c
+      end; try discriminate; injection H as <-; reflexivity.
+  - destruct k; cbn in H; try discriminate; injection H as <-; reflexivity.
+Qed.
+Lemma generic_matching_l : forall lib k v, matching v k = true ->
+  generic lib k v = if unconvertible lib v k then Throw else Ok (arrive lib k v).
+Proof.
+  intros lib k v Hm. destruct v; destruct k; try discriminate; cbn; try reflexivity;
+    try (match goal with |- (if ?c then _ else _) = _ => destruct c; reflexivity end).
+Qed.
